@@ -177,9 +177,9 @@ func (r *Run) Part(name string, fn func(t *T)) {
 type stopReplay struct{}
 
 // Thorough / Pick forwarders.
-func (t *T) Thorough() bool    { return t.r.Thorough() }
+func (t *T) Thorough() bool     { return t.r.Thorough() }
 func (t *T) Pick(q, th int) int { return t.r.Pick(q, th) }
-func (t *T) Replaying() bool   { return t.r.replay != nil }
+func (t *T) Replaying() bool    { return t.r.replay != nil }
 
 // Note attaches free text to the part's evidence.
 func (t *T) Note(s string) { t.st.Note = s }
@@ -286,7 +286,11 @@ func (t *T) safe(check func() *Fail) (f *Fail) {
 			f = &Fail{Sig: "panic:" + panicSite(st), Detail: fmt.Sprintf("panic: %v\n%s", e, trimStack(st))}
 		}
 	}()
-	return check()
+	f = check()
+	if f == nil {
+		f = doublePut()
+	}
+	return f
 }
 
 // panicSite extracts the first frame inside gobwas/ws (or the harness) below the panic.
@@ -597,7 +601,20 @@ func (t *T) exec(c *Chooser, run func(c *Chooser) *Fail) (f *Fail) {
 			}
 		}
 	}()
-	return run(c)
+	f = run(c)
+	if f == nil {
+		f = doublePut()
+	}
+	return f
+}
+
+// doublePut turns a pooled object that was put into its pool twice during the case (seen by the
+// pool shim) into a failure: two later owners would share it.
+func doublePut() *Fail {
+	if note, ok := vsync.TakeDoublePut(); ok {
+		return &Fail{Sig: "pooled-object-put-into-its-pool-twice", Detail: note}
+	}
+	return nil
 }
 
 func fmtVec(v []int) string {
@@ -783,7 +800,13 @@ func (r *Run) finish(writeEvidence bool) int {
 	}
 	sort.Slice(vs, func(i, j int) bool { return vs[i].Sig < vs[j].Sig })
 	newV := 0
-	os.MkdirAll(filepath.Join(dir, "evidence", "replays"), 0o755)
+	// replay files describe a violation on the tree that was checked; evaluations of deliberately
+	// changed scratch trees (seeded/eval.sh, mutants/run.sh) send theirs elsewhere
+	replayDir := filepath.Join(dir, "evidence", "replays")
+	if d := os.Getenv("VERIF_REPLAY_DIR"); d != "" {
+		replayDir = d
+	}
+	os.MkdirAll(replayDir, 0o755)
 	for _, v := range vs {
 		if what, ok := known[v.Sig]; ok {
 			v.Known = true
@@ -792,7 +815,7 @@ func (r *Run) finish(writeEvidence bool) int {
 		}
 		newV++
 		h := sha1.Sum([]byte(v.Sig))
-		path := filepath.Join(dir, "evidence", "replays", fmt.Sprintf("%s-%s.json", r.Prop, hex.EncodeToString(h[:5])))
+		path := filepath.Join(replayDir, fmt.Sprintf("%s-%s.json", r.Prop, hex.EncodeToString(h[:5])))
 		v.Replay = path
 		data, _ := json.MarshalIndent(map[string]interface{}{
 			"property": r.Prop, "part": v.Part, "sig": v.Sig, "case": v.Case, "detail": v.Detail, "count": v.Count,
